@@ -362,9 +362,9 @@ MARK_GOALS = {
     "read_without_recv": ('st.topics["g1"].exists /\\ st.cache["g1"].loaded /\\ "g1" \\in M(st.sess["s2"].subs) /\\ st.topics["g1"].seq >= 2 '
                           '/\\ st.subs["g1"]["u2"].st = "live" /\\ "R" \\in Eff(st.subs["g1"]["u2"]) /\\ st.subs["g1"]["u2"].read = 0 /\\ st.subs["g1"]["u2"].recv = 0',
                           [{"a": "Note", "s": "s2", "t": "g1", "what": "read", "seq": 2, "chan": False},
-                           {"a": "Get", "s": "s2", "t": "g1", "what": "desc", "since": 0, "before": 0, "limit": 0, "chan": False},
+                           {"a": "Get", "s": "s2", "t": "g1", "what": "desc sub", "since": 0, "before": 0, "limit": 0, "chan": False},
                            {"a": "Reload", "t": "g1"},
-                           {"a": "Get", "s": "s2", "t": "g1", "what": "desc", "since": 0, "before": 0, "limit": 0, "chan": False}]),
+                           {"a": "Get", "s": "s2", "t": "g1", "what": "desc sub", "since": 0, "before": 0, "limit": 0, "chan": False}]),
     "recv_ahead_of_read": ('st.topics["g1"].exists /\\ st.cache["g1"].loaded /\\ "g1" \\in M(st.sess["s2"].subs) '
                            '/\\ st.subs["g1"]["u2"].st = "live" /\\ st.subs["g1"]["u2"].read = 1 /\\ st.subs["g1"]["u2"].recv = 3',
                            [{"a": "Note", "s": "s2", "t": "g1", "what": "recv", "seq": 2, "chan": False},
